@@ -67,6 +67,11 @@ pub struct LogCase {
     pub start_index: u64,
     pub pre_term: u64,
     pub ops: Vec<LogOp>,
+    /// L2 only, needs the verification hook of /repo (cfg nacos_group_r_nacos_verif): log files count as full at this
+    /// offset of their index area (44 = after 128 records, 46..48 = after 256, ...), so ordinary histories cross
+    /// several real file switches. None = the real limit (173k+ records per file).
+    #[serde(default)]
+    pub index_area_limit: Option<u64>,
 }
 
 pub fn size_strategy() -> impl Strategy<Value = SizeClass> {
@@ -187,7 +192,7 @@ pub fn roll_case_strategy(profile: Profile) -> BoxedStrategy<LogCase> {
             prefix.push(LogOp::FillToRollover { big, stop });
             prefix.extend(after);
             prefix.extend(ops);
-            LogCase { start_index: 1, pre_term: 0, ops: prefix }
+            LogCase { start_index: 1, pre_term: 0, ops: prefix, index_area_limit: None }
         })
         .boxed()
 }
@@ -204,6 +209,7 @@ pub fn case_strategy(profile: Profile, l2: bool, max_ops: usize) -> BoxedStrateg
             start_index: if l2 { 1 } else { start_index },
             pre_term,
             ops,
+            index_area_limit: None,
         })
         .boxed()
 }
@@ -280,6 +286,8 @@ pub struct LogModel {
     /// (start index, position of the first entry) of every log file the mirror believes to exist, oldest first
     pub files: Vec<(u64, usize)>,
     pub rollovers: u64,
+    /// offset at which the index area counts as full (the data area start unless the verification hook moves it)
+    pub limit: u64,
 }
 
 pub const INDEX_AREA_START: u64 = 32;
@@ -301,19 +309,20 @@ impl LogModel {
             grp_count: 0,
             files: vec![(start_index, 0)],
             rollovers: 0,
+            limit: DATA_AREA_START,
         }
     }
     /// the store switches to a new file when, after an index entry has been written, fewer than 10 bytes of the
     /// index area are left
     pub fn index_area_full(&self) -> bool {
-        self.idx_cursor + 10 >= DATA_AREA_START
+        self.idx_cursor + 10 >= self.limit
     }
     /// records that still fit into the open file before the switch, assuming records of `rec_len` bytes
     pub fn records_until_switch(&self, rec_len: u64) -> u64 {
         let mut cur = self.idx_cursor;
         let mut n = 0u64;
         let mut first = true;
-        while cur + 10 < DATA_AREA_START {
+        while cur + 10 < self.limit {
             let (cnt, bytes) = if first { (128 - self.grp_count, self.grp_bytes + (128 - self.grp_count) * rec_len) } else { (128, 128 * rec_len) };
             first = false;
             n += cnt;
